@@ -1,53 +1,52 @@
 // Correspondence driver for views of adept::Array (model M5 / AdeptModel/Views.lean, property C06).
 // usage: drv_views < ops            (same line protocol as lean/Driver/Views.lean)
 //   mode checked|unchecked          must name the build (ADEPT_BOUNDS_CHECKING defined or not)
-//   parent rm|cm d0 d1 ...          fresh Array<r,int>, r = 1..5, filled with its own cell numbers
-//   slice A0 A1 ...                 A = i:E | r:E,E | s:E,E,S | _     E = k | eK  (eK is `end - K`)
+//   parent rm|cm d0 d1 ...          fresh Array<r,int>, r = 1..6, filled with its own cell numbers
+//   aparent rm|cm d0 d1 ...         fresh ACTIVE Array<r,double,true>, r = 1..3 (its views stay active)
+//   fparent d0 ...                  FixedArray<int,false,d0,...>: 4 | 3 4 | 3 3 | 2 3 4; the first successful
+//                                   operation is FixedArray's own member and returns an Array<r,int>
+//   slice A0 A1 ...                 A = i:E | r:E,E | s:E,E,E | _
+//                                   E = k | eK (`end - K`) | end | (E+E) (E-E) (E*E) (E/E) (E>E: max) (E<E: min)
 //   subset E E ...  | idx E | T | permute p.. | diag k | subdiag b e | reshape d.. | softlink
+//   cslice, csubset, cidx, cT, csoftlink, cix: the same member called through a const reference (const overload)
 //   contig                          is_contiguous()
 //   ix S0 S1 ...                    integer-vector indexing of the current view (state unchanged): drv_views_idx.h
 // Answer to a view-forming op: rank, extents, offset(i), data()-parent.data(), all elements in index
-// order (read through operator()(int...)), then -(j+1) is written through element j and every cell of
-// the parent allocation that no longer holds its own number is listed (and restored).
+// order (read through the const operator()(int...)), then -(j+1) is written through element j (non-const
+// operator()(int...)) and every cell of the parent allocation that no longer holds its own number is listed
+// (and restored).  Active views: also gradient_index() - parent.gradient_index() must equal the data offset
+// (`o=<data>!g<gradient>` otherwise); an active element (rank 0) is located through its gradient index.
 //
-// Views of different rank are different C++ types: a small class hierarchy V<R> holds them and the
+// Views of different rank are different C++ types: a small class hierarchy V<AR> holds them and the
 // argument types of operator() are chosen by a recursive template (SliceDisp).  To bound the number
-// of instantiations, ranks 1-2 mix all seven argument types per position (int, end-k, the four
-// RangeIndex<B,E,int> with B,E in {int, end-k}, AllIndex); ranks 3-5 use per call either the int
-// family or the end-k family (an int k is then passed as end-(len-1-k)).
-// Compile time: the work is split over drv_views.cpp (main, ranks 0-3), drv_views_r4.cpp,
-// drv_views_r5.cpp, drv_views_r5i.cpp, drv_views_r5e.cpp, drv_views_idx*.cpp (IndexedArray), built in parallel by vbuild.
+// of instantiations, passive ranks 1-2 mix all seven plain argument types per position (int, end-k, the four
+// RangeIndex<B,E,int> with B,E in {int, end-k}, AllIndex); ranks 3-6, active arrays and FixedArray use per
+// call either the int family or the end-k family (an int k is then passed as end-(len-1-k)); rank 6 has
+// `__` in the last position only.  Rich index expressions (k-end, end/2, (end-1)/2, ...: the menu XSHAPES of
+// drv_views.h) are compiled for passive ranks 1-3, in one argument per call (drv_views_x*.cpp).
+// Compile time: the work is split over many translation units, built in parallel by vbuild.
 #include "drv_views.h"
 
 int* g_pdata = 0;
+double* g_adata = 0;
+Index g_gbase = 0;
 long g_vol = 0;
 
-// rank 0: the reference returned by operator() with only scalar arguments
-struct V0 : VBase {
-  int* p;
-  explicit V0(int& r) : p(&r) {}
-  int rank() const { return 0; }
-  std::string describe() {
-    std::ostringstream os;
-    os << "ok r=0 d= s= o=" << (p - g_pdata) << " e=" << *p;
-    *p = -1;
-    os << " w=" << dump_changes();
-    return os.str();
-  }
-  VBase* apply(const std::vector<std::string>&) { throw BadOp(); }
-  int contig() { throw BadOp(); }
-  std::string indexed(const std::vector<std::string>&) { throw BadOp(); }
-};
-
-VBase* wrap(int& r) { return new V0(r); }
 VIEWS_DEFINE_RANK(1)
 VIEWS_DEFINE_RANK(2)
 VIEWS_DEFINE_RANK(3)
 
 struct Parents {
-  Array<1,int>* p1; Array<2,int>* p2; Array<3,int>* p3; Array<4,int>* p4; Array<5,int>* p5;
-  Parents() : p1(0), p2(0), p3(0), p4(0), p5(0) {}
-  void clear() { delete p1; delete p2; delete p3; delete p4; delete p5; p1 = 0; p2 = 0; p3 = 0; p4 = 0; p5 = 0; g_pdata = 0; g_vol = 0; }
+  Array<1,int>* p1; Array<2,int>* p2; Array<3,int>* p3; Array<4,int>* p4; Array<5,int>* p5; Array<6,int>* p6;
+  Array<1,double,true>* a1; Array<2,double,true>* a2; Array<3,double,true>* a3;
+  Fix1* f1; Fix2* f2; Fix2s* f2s; Fix3* f3;
+  Parents() : p1(0), p2(0), p3(0), p4(0), p5(0), p6(0), a1(0), a2(0), a3(0), f1(0), f2(0), f2s(0), f3(0) {}
+  void clear() {
+    delete p1; delete p2; delete p3; delete p4; delete p5; delete p6; delete a1; delete a2; delete a3;
+    delete f1; delete f2; delete f2s; delete f3;
+    p1 = 0; p2 = 0; p3 = 0; p4 = 0; p5 = 0; p6 = 0; a1 = 0; a2 = 0; a3 = 0; f1 = 0; f2 = 0; f2s = 0; f3 = 0;
+    g_pdata = 0; g_adata = 0; g_vol = 0;
+  }
 };
 
 int main() {
@@ -56,6 +55,7 @@ int main() {
 #else
   const bool checked = false;
 #endif
+  adept::Stack stack;          // active parents register their gradients here; element writes are recorded
   Parents par;
   VBase* cur = 0;
   std::string line;
@@ -67,22 +67,47 @@ int main() {
       else std::cout << "mode-mismatch\n";
       continue;
     }
-    if (w[0] == "parent") {
+    if (w[0] == "parent" || w[0] == "aparent") {
+      bool act = (w[0] == "aparent");
       std::vector<int> d(w.size() >= 2 ? w.size() - 2 : 0);
-      bool ok = w.size() >= 3 && w.size() <= 7 && (w[1] == "rm" || w[1] == "cm");
+      bool ok = w.size() >= 3 && w.size() <= (act ? 5u : 8u) && (w[1] == "rm" || w[1] == "cm");
       for (size_t k = 0; ok && k < d.size(); ++k) ok = parse_int(w[k + 2], d[k]) && d[k] >= 1;
       if (!ok) { std::cout << "bad-op\n"; continue; }
       delete cur; cur = 0;
       par.clear();
+      stack.new_recording();
       set_array_row_major_order(w[1] == "rm");
-      switch (d.size()) {
-        case 1: cur = make_parent_1(d, par.p1); break;
-        case 2: cur = make_parent_2(d, par.p2); break;
-        case 3: cur = make_parent_3(d, par.p3); break;
-        case 4: cur = make_parent_4(d, par.p4); break;
-        default: cur = make_parent_5(d, par.p5); break;
-      }
+      if (act)
+        switch (d.size()) {
+          case 1: cur = make_aparent_1(d, par.a1); break;
+          case 2: cur = make_aparent_2(d, par.a2); break;
+          default: cur = make_aparent_3(d, par.a3); break;
+        }
+      else
+        switch (d.size()) {
+          case 1: cur = make_parent_1(d, par.p1); break;
+          case 2: cur = make_parent_2(d, par.p2); break;
+          case 3: cur = make_parent_3(d, par.p3); break;
+          case 4: cur = make_parent_4(d, par.p4); break;
+          case 5: cur = make_parent_5(d, par.p5); break;
+          default: cur = make_parent_6(d, par.p6); break;
+        }
       set_array_row_major_order(true);
+      std::cout << cur->describe() << "\n";
+      continue;
+    }
+    if (w[0] == "fparent") {
+      std::vector<int> d(w.size() - 1);
+      bool ok = w.size() >= 2 && w.size() <= 4;
+      for (size_t k = 0; ok && k < d.size(); ++k) ok = parse_int(w[k + 1], d[k]);
+      VBase* nv = 0;
+      if (ok) {
+        delete cur; cur = 0;
+        par.clear();
+        nv = make_fixed(d, par.f1, par.f2, par.f2s, par.f3);
+      }
+      if (!nv) { std::cout << "bad-op\n"; continue; }
+      cur = nv;
       std::cout << cur->describe() << "\n";
       continue;
     }
@@ -93,7 +118,7 @@ int main() {
         std::cout << "contig=" << c << "\n";
         continue;
       }
-      if (w[0] == "ix") {
+      if (w[0] == "ix" || w[0] == "cix") {
         std::cout << cur->indexed(w) << "\n";
         continue;
       }
